@@ -202,6 +202,11 @@ func (r *ReaderStream) Read(p []byte) (int, error) {
 // manner that's safe for the assembler (IE: it doesn't block).
 func (r *ReaderStream) Close() error {
 	r.current = nil
+	if !r.first && !r.closed {
+		// Read has received a batch it did not acknowledge yet: the
+		// assembler is blocked in Reassembled until we do.
+		r.done <- true
+	}
 	r.closed = true
 	for {
 		if _, ok := <-r.reassembled; !ok {
